@@ -278,10 +278,10 @@ def install(sim=None, keep_events=True, contracts=False, wrap_leaves=True, max_e
         if 'put' in orig:
             f_put = inner['put']
 
-            def put(self, val):
+            def put(self, val, *a, **k):
                 old = self.__dict__.get('value')
                 try:
-                    r = f_put(self, val)
+                    r = f_put(self, val, *a, **k)
                 except WidthContractBroken as e:
                     r = None
                     if len(rec.contract_bad) < 200:
@@ -295,10 +295,10 @@ def install(sim=None, keep_events=True, contracts=False, wrap_leaves=True, max_e
         if 'prepare' in orig:
             f_prep = inner['prepare']
 
-            def prepare(self, val):
+            def prepare(self, val, *a, **k):
                 old = self.__dict__.get('next')
                 try:
-                    r = f_prep(self, val)
+                    r = f_prep(self, val, *a, **k)
                 except WidthContractBroken as e:
                     r = None
                     if len(rec.contract_bad) < 200:
@@ -317,10 +317,10 @@ def install(sim=None, keep_events=True, contracts=False, wrap_leaves=True, max_e
         if 'settle' in orig:
             f_settle = inner['settle']
 
-            def settle(self):
+            def settle(self, *a, **k):
                 old = self.__dict__.get('value')
                 try:
-                    r = f_settle(self)
+                    r = f_settle(self, *a, **k)
                 except WidthContractBroken as e:
                     r = None
                     if len(rec.contract_bad) < 200:
